@@ -142,9 +142,9 @@ def run(ctx):
         ctx.run_hypothesis('hyp_cases', 160, max_L=7, max_L_2d=12,
                            max_color=4, max_n=1200)
     else:
-        cases = domain.all_code_cases(6, 12, 5, max_n=4000)
+        cases = domain.all_code_cases(7, 16, 5, max_n=5000)
         ctx.run_cases(cases, chunk=4)
-        ctx.run_hypothesis('hyp_cases', 600, max_L=9, max_L_2d=20,
-                           max_color=6, max_n=4000)
+        ctx.run_hypothesis('hyp_cases', 2400, max_L=10, max_L_2d=24,
+                           max_color=6, max_n=6000)
     ctx.exhaustive = True
     ctx.note('enumerated_cases', len(cases))
